@@ -95,9 +95,6 @@ type blockRes struct {
 	Panic    bool   `json:"panic"`
 	Err      string `json:"err"`
 	LendPaid bool   `json:"lendPaid"` // the books of a lend reward program moved in this block (observation, used to key a known finding)
-	// before the block a swap-fee gauge with a positive deposit sat on a pair with more than one pool while an oracle price
-	// of that pair was missing (observation of the pre-state, used to key a known finding)
-	MultiNoPrice bool `json:"multiNoPrice"`
 }
 
 // ---------------------------------------------------------------------------------------------------------
@@ -179,7 +176,8 @@ func splitVectors(lg *sim.Log, path string, rng *sim.Rng, nbig int) (int, error)
 
 const unit = 6 * time.Hour // one model time unit; model duration D = 2 units = 12h (MinimumEpochDuration)
 
-func walkFixture() (*sim.Env, *fixture) {
+// walkFixture: np pools with their own two assets each (pool p >= 3: quote twa p-1, base twa 1, as in MC_Gauge.PoolC)
+func walkFixture(np int) (*sim.Env, *fixture) {
 	t := big.NewInt
 	cfg := fxCfg{
 		Assets: []assetCfg{{"AAA", "uaaa", t(1), 2}, {"BBB", "ubbb", t(1), 1}, {"CCC", "uccc", t(1), 1}, {"DDD", "uddd", t(1), 3}},
@@ -189,6 +187,12 @@ func walkFixture() (*sim.Env, *fixture) {
 		MinPs:   t(1), Give: t(100),
 		Rewards: []string{"urwda", "urwdb", "urwdc", "ufeea", "ufeeb"}, RewAmt: t(1000000),
 		Distr: "ufeea",
+	}
+	names := "EFGHIJKLMNOP"
+	for p := 3; p <= np; p++ {
+		b, q := string(names[2*(p-3)]), string(names[2*(p-3)+1])
+		cfg.Assets = append(cfg.Assets, assetCfg{b + b + b, "u" + strings.ToLower(b+b+b), t(1), 1}, assetCfg{q + q + q, "u" + strings.ToLower(q+q+q), t(1), uint64(p - 1)})
+		cfg.Pools = append(cfg.Pools, poolCfg{Base: len(cfg.Assets) - 2, Quote: len(cfg.Assets) - 1, Rx: t(1000), Ry: t(1000), DonQ: t(9000), DonB: t(9000)})
 	}
 	return newFixture(cfg)
 }
@@ -266,7 +270,27 @@ func walkGraph(lg *sim.Log, path, name string) (int, int, error) {
 	if first == "" {
 		return 0, 0, fmt.Errorf("no transitions in %s", path)
 	}
-	e0, fx := walkFixture()
+	// the model's initial state fixes the number of pools and the positions held from the start
+	var init0 struct {
+		Pools []json.RawMessage `json:"pools"`
+		Users []struct {
+			Pos []struct {
+				Pc int64 `json:"pc"`
+			} `json:"pos"`
+		} `json:"users"`
+	}
+	must(json.Unmarshal([]byte(first), &init0))
+	e0, fx := walkFixture(len(init0.Pools))
+	for u, usr := range init0.Users {
+		for p, pos := range usr.Pos {
+			if pos.Pc > 0 {
+				if fa := fx.farm(e0, fx.cfg.Farmers[u], p+1, big.NewInt(pos.Pc), false); !fa.Ok {
+					return 0, 0, fmt.Errorf("initial position: %s", fa.Err)
+				}
+			}
+		}
+	}
+	fx.activate(e0)
 	r := &runner{lg: lg, run: "walk:" + name}
 	type item struct {
 		key string
@@ -380,17 +404,8 @@ func (fx *fixture) block(r *runner, e *sim.Env, parent int, dt time.Duration) in
 			}
 		}
 	}
-	multiNoPrice := false
-	for _, g := range pre.Gauges {
-		if g.Kind == "swap" && len(g.Dep) > 0 && g.Pool >= 1 && int(g.Pool) <= len(pre.Pools) {
-			pl := pre.Pools[g.Pool-1]
-			if pl.Multi && !(pl.QOn && pl.BOn) {
-				multiNoPrice = true
-			}
-		}
-	}
 	return r.node(id, "BeginBlock", map[string]interface{}{"dt": int64(dt / time.Second)},
-		blockRes{Panic: br.Panic, Err: br.Err, LendPaid: lendPaid, MultiNoPrice: multiNoPrice}, post)
+		blockRes{Panic: br.Panic, Err: br.Err, LendPaid: lendPaid}, post)
 }
 
 func must(err error) {
